@@ -10,8 +10,11 @@ mkdir -p "$WT/evidence" "$WT/replays"
 miss=0
 for id in "${ids[@]}"; do
   prop=$(echo "$id" | sed -E 's/^(R[0-9]-)?(C[0-9]+)-.*/\2/')
-  git -C "$WT/r" checkout -q -- . ; git -C "$WT/r" clean -fdq
-  if ! git -C "$WT/r" apply "$PWD/seeded/$id/patch.diff" 2>/dev/null && ! git -C "$WT/r" apply -3 "$PWD/seeded/$id/patch.diff" 2>/dev/null; then echo "$id: PATCH DOES NOT APPLY"; continue; fi
+  git -C "$WT/r" reset -q --hard HEAD ; git -C "$WT/r" clean -fdq
+  if ! git -C "$WT/r" apply "$PWD/seeded/$id/patch.diff" 2>/dev/null; then
+    if git -C "$WT/r" apply -3 "$PWD/seeded/$id/patch.diff" >/dev/null 2>&1 && [ -z "$(git -C "$WT/r" diff --name-only --diff-filter=U)" ]; then git -C "$WT/r" reset -q
+    else echo "$id: PATCH DOES NOT APPLY to the current tree (site rewritten by a later fix)"; git -C "$WT/r" reset -q --hard HEAD; continue; fi
+  fi
   checks=$(python3 -c "import json,sys; m=json.load(open('seeded/$id/meta.json')); print(' '.join(sorted({c.split(':')[0] for c in m.get('checks_run',[]) if ':exit=1' in c}) or ['$prop']))")
   res=""
   for c in $prop $checks; do
